@@ -88,7 +88,7 @@ for (rto, rc) in ((500, 7), (500, 1), (3000, 3)):
                   bounds="RTO=%d ms, Rc=%d, Rm symbolic 1..32, first call at an arbitrary instant" % (rto, rc),
                   funcs=["RtoManager::new", "RtoManager::next_rto"]))
 for (rto, rc, i, tier) in ([(500, 7, i, "quick" if i < 7 else "thorough") for i in range(1, 8)] + [(500, 1, 1, "quick"), (500, 2, 1, "quick"), (500, 2, 2, "quick"),
-                           (1, 4, 1, "thorough"), (1, 4, 3, "thorough"), (3000, 3, 1, "thorough"), (3000, 3, 2, "quick"), (3000, 3, 3, "quick"),
+                           (1, 4, 1, "thorough"), (1, 4, 3, "thorough"), (3000, 3, 1, "thorough"), (3000, 3, 2, "quick"), (3000, 3, 3, "thorough"),
                            (500, 10, 1, "thorough"), (500, 10, 5, "thorough"), (500, 10, 9, "thorough"), (500, 10, 10, "thorough"),
                            (100, 5, 1, "thorough"), (100, 5, 3, "thorough"), (100, 5, 5, "thorough"), (250, 4, 2, "thorough"), (250, 4, 4, "thorough")]):
     _c06.append(H("agent", TMO + "c06_step_rto%d_rc%d_i%d" % (rto, rc, i), tier=tier, timeout=2400 if rc == 10 else 600, mem_gb=6, covers=(2 if i == rc else 3), stubs=[CDS],
@@ -633,3 +633,25 @@ for _h in _C08:
     _h.tier = "quick" if _h.name.split("::")[-1] in _C08_QUICK else "thorough"
     if _h.name.endswith("c08_recv_401_with_sha"):
         _h.mem_gb = 24
+
+# ---- level texts brought up to date with what is registered (second round)
+DESCR["C18"] = {
+    "level": "Bounded model checking of the real MessageDecoder::decode (concrete message type and TLV framing, symbolic values; attribute types concrete per query or symbolic over {FINGERPRINT, PRIORITY, unknown}) under the option sets no context / default / not_ignore / with_unknown_data / with_validation: no context == default context; the default result is the subsequence admitted by the ordering rule and not_ignore returns every wire attribute in order; with_unknown_data adds exactly the raw value bytes of unknown attributes (also behind an integrity attribute with not_ignore); with validation on (CRC primitive stubbed by an arbitrary counted verdict) the decode can only turn Ok into Err, exactly the admitted verifiable attributes are validated, and Ok yields the attributes of the non-validating decode. Unit level: validate_attribute under every option set, Unknown::new with / without data.",
+    "note": "Message type concrete (type decoding: C02 c02_message_type_bits); 2-3 attribute messages; MAC/CRC primitives are stubs here (C04/C10 decide what they are fed). Trusted: Kani/CBMC, the 4-kind registry restriction (agreement asserted), the recording builder stub.",
+}
+DESCR["C09"]["level"] += " At whole-decode level (real MessageDecoder::decode, validation on, primitives stubbed and counted): an attribute that is not admitted is neither returned nor handed to validation (second FINGERPRINT; attribute after MESSAGE-INTEGRITY)."
+DESCR["C10"]["level"] += " (iv) whole decode with validation: the text handed to the CRC check is the message up to the FINGERPRINT attribute (padding of a preceding ignored attribute included) with the length field covering it, observed through a recording stub with the real input selection."
+DESCR["C04"]["level"] += " At whole-decode level the text handed to <MessageIntegrity as Verifiable>::verify is observed (recording stub, real input selection): the message up to the integrity attribute with the length field covering it and nothing after it."
+DESCR["C01"]["level"] += " PASSWORD-ALGORITHMS lists: the decode walk (every buffer up to 24 bytes, storage stubbed by recorders) and the encode layout (1-4 entries, parameters supplied by a stub) against the RFC 8489 14.11 layout. Message level: one-attribute messages through the real encoder and decoder with a concrete (method, class) per instance."
+DESCR["C13"]["level"] += " Unit level on the real message.rs: three additions with every duplicate pattern (ABA, AAB, ABB, ABC, AAA): one entry per type in first-insertion order holding the last value."
+DESCR["C12"]["level"] += " Includes send_request at an instant at which the head deadline is already overdue (late controller): the refusal is still exact and silent."
+DESCR["C17"]["level"] += " Client step: a rejected buffer either never reaches the credential mechanism or is discarded by it (the mechanisms change state exactly when they return something other than Discarded)."
+DESCR["C19"]["level"] += " Includes the consuming into_iter of a PasswordAlgorithms value whose clone is still alive."
+META["C18"]["outside"] = "messages with more than 3 attributes or attribute kinds other than MESSAGE-INTEGRITY / SHA256 / FINGERPRINT / PRIORITY / unknown; symbolic message type at whole-decode level (type decoding is C02's); the MAC/CRC primitives (stubbed by arbitrary verdicts here); the validation relation is decided per concrete pattern, not for arbitrary bytes"
+META["C04"]["outside"] = META["C04"]["outside"].replace("the long-term key derivation string (assumed; covered by the RFC 5769/8489 vectors of the existing suite)", "the long-term key derivation string (the query with the real format! did not finish in 40 min: not decided; covered by the RFC 5769/8489 vectors of the existing suite)")
+
+# every property that uses a client-step query also runs the induction base (fresh client satisfies the invariant); it is the
+# cheapest slice query and serves as the build probe
+for _k, _hs in PROPS.items():
+    if any(h.build == "slice" for h in _hs) and not any(h.name.endswith("glue_base") for h in _hs):
+        PROPS[_k] = _hs + [_G_SEND[0]]
